@@ -49,18 +49,18 @@ type progOp struct {
 }
 
 type memEv struct {
-	E       string      `json:"e"`
-	Ok      *bool       `json:"ok,omitempty"`
-	Err     string      `json:"err,omitempty"`
-	SizeIn  *int        `json:"size_in,omitempty"`
-	ShaIn   string      `json:"sha_in,omitempty"`
-	Obs     *memObs     `json:"obs,omitempty"`
+	E       string       `json:"e"`
+	Ok      *bool        `json:"ok,omitempty"`
+	Err     string       `json:"err,omitempty"`
+	SizeIn  *int         `json:"size_in,omitempty"`
+	ShaIn   string       `json:"sha_in,omitempty"`
+	Obs     *memObs      `json:"obs,omitempty"`
 	Samples *[]memSample `json:"samples,omitempty"`
-	Target  string      `json:"target,omitempty"`
-	Op      string      `json:"op,omitempty"`
-	Res     string      `json:"res,omitempty"`
-	Status  string      `json:"status,omitempty"`
-	Ops     *[]progOp   `json:"ops,omitempty"`
+	Target  string       `json:"target,omitempty"`
+	Op      string       `json:"op,omitempty"`
+	Res     string       `json:"res,omitempty"`
+	Status  string       `json:"status,omitempty"`
+	Ops     *[]progOp    `json:"ops,omitempty"`
 }
 
 type memOut struct {
